@@ -42,6 +42,10 @@ def run(chk):
             chk.stats[f"{rid}:{cfg}:functions"] = len(bodies)
             for s in res.sites[:3]:
                 chk.sample({"zone": rid, "site": f"{s['body'].path} line {s['line']} {s['kind']}", "discharge": s["why"]})
+    from .c04 import check_readers
+    check_readers(chk, "C20-c")
+    chk.notes.append("C20-c: the generated marker range functions compute `start + len` (1147 additions); read()/marker agreement plus the "
+                     "Cursor::finish gate (positions saturate and are <= data.len() <= isize::MAX) make these additions overflow-free.")
     chk.assume("values entering a zone function are bounded only by their types (the interpreter stack can hold any i32)")
     chk.notes.append("Outside the claim: hint/round.rs RoundState::round (unchecked +,-,neg,/ on interpreter values; triage not "
                      "completed, see DESIGN.md F8), the glyf scaler, CFF hinter, autohinter, colour instance and hand-written "
